@@ -356,7 +356,8 @@ fn pr_case(c: &(usize, f64, f64, f64), rec: &mut Rec) {
 
 pub fn run(ctx: &mut Ctx) {
     let tier = ctx.tier;
-    let ps: Vec<Pair> = pairs().into_iter().filter(|p| tier == crate::engine::Tier::Thorough || p.quick).collect();
+    // both tiers run every implementation pair (the quick tier on the small state lattice)
+    let ps: Vec<Pair> = pairs();
     let mut cases = vec![];
     for p in &ps {
         let xsets: Vec<Array1<f64>> = match p.n {
